@@ -380,6 +380,50 @@ def rule_truncating_casts(ctx):
     ctx.floor("truncating casts to u16/u8", n, 8)
 
 
+def rule_reject_no_panic(ctx):
+    """"Returns without panicking for any needle": when the matrix set-up finds no place for the needle (`setup`
+    answers false) the optimal matcher must answer None.  An explicit panic on that edge turns an input the
+    prefilter let through (a needle the caller did not normalise: the ASCII prefilter looks for an upper-case needle
+    byte as it is, `setup` compares it with the folded haystack) into a crash.  Narrow on purpose: only the reject
+    edge of `setup` in `fuzzy_match_optimal`; when the function has another shape the clause says so and decides nothing."""
+    facts = ctx.facts
+    cands = [b for b in facts.bodies_of(M) if b["path"].endswith("::fuzzy_match_optimal") and b.get("kind") != "Closure"]
+    if not cands:
+        ctx.note("fuzzy_match_optimal not found: reject edge not examined")
+        return
+    fn = fn_of(cands[0])
+    k = 0
+    for bi in sorted(fn.live):
+        t = fn.blocks[bi]["term"]
+        if t["k"] != "switch":
+            continue
+        e = strip_casts(fn.expr_of_operand(t["discr"]))
+        neg = False
+        while e[0] == "un" and e[1] == "Not":
+            e = strip_casts(e[2])
+            neg = not neg
+        if not (e[0] == "call" and str(e[1]).endswith("::setup")):
+            continue
+        zero = [b_ for v, b_ in t["arms"] if v == 0]
+        if not zero:
+            continue
+        rejected = t["otherwise"] if neg else zero[0]
+        k += 1
+        key = "%s|reject-edge|%d" % (fn.path, k)
+        region = fn.reach_from(rejected)
+        bad = [b_ for b_ in sorted(region) if fn.blocks[b_]["term"]["k"] == "call" and fn.blocks[b_]["term"].get("target") is None
+               and any(x in callee(fn.blocks[b_]["term"]) for x in ("panicking::", "panic_fmt", "assert_failed", "unwrap_failed", "expect_failed"))]
+        if bad:
+            ctx.violation(key, site(fn, bad[0]),
+                          "fuzzy_match_optimal panics when `setup` finds no match and both strings are ASCII (\"should have been caught by prefilter\"): "
+                          "the ASCII prefilter searches an upper-case needle byte as it is, `setup` compares it with the folded haystack, e.g. "
+                          "fuzzy_match(\"fooBar\", \"oB\") with the default configuration; the documentation promises only that an un-normalised needle may fail to match")
+        else:
+            ctx.ok(site(fn, bi), "the reject edge of setup leads to `return None` without an explicit panic")
+    if k == 0:
+        ctx.note("no branch on the result of setup in fuzzy_match_optimal: reject edge not examined")
+
+
 def rule_len_asserts(ctx):
     """Every `as u32` of a haystack position is preceded, on every call chain from a public Matcher
     method, by the `haystack.len() <= u32::MAX` assertion."""
@@ -801,5 +845,6 @@ def rules(ctx):
     ctx.run_rule("C10.u16-overflow", rule_u16_overflow)
     ctx.run_rule("C10.truncating-casts", rule_truncating_casts)
     ctx.run_rule("C10.len-asserts", rule_len_asserts)
+    ctx.run_rule("C10.reject-no-panic", rule_reject_no_panic)
     ctx.run_rule("C10.unsafe-inventory", rule_unsafe_inventory)
     ctx.run_rule("C10.config-only-state", rule_config_only_state)
